@@ -3,6 +3,7 @@ package tensor
 import (
 	"runtime"
 	"sync"
+	"unsafe"
 
 	"gorgonia.org/tensor/internal/storage"
 )
@@ -81,6 +82,7 @@ func ReturnTensor(t Tensor) {
 	}
 	switch tt := t.(type) {
 	case *Dense:
+		verifHook("ReturnTensor", 0, uintptr(unsafe.Pointer(tt)))
 		tt.AP.zero()
 
 		if tt.transposeWith != nil {
@@ -163,6 +165,7 @@ func BorrowInts(size int) []int {
 		return make([]int, size)
 	}
 	// log.Printf("Borrowing %p. Called by %v", retVal, string(debug.Stack()))
+	verifHook("BorrowInts", size, intsID(retVal.([]int)))
 	return retVal.([]int)[:size]
 }
 
@@ -182,6 +185,7 @@ func ReturnInts(is []int) {
 		return
 	}
 	is = is[:cap(is)]
+	verifHook("ReturnInts", size, intsID(is))
 	for i := range is {
 		is[i] = 0
 	}
@@ -270,4 +274,12 @@ func returnOpOpt(oo *OpOpt) {
 	optPool.Put(oo)
 
 	// optPool.Put(unsafe.Pointer(oo))
+}
+
+// intsID identifies the backing array of an int slice (verification hooks only).
+func intsID(is []int) uintptr {
+	if cap(is) == 0 {
+		return 0
+	}
+	return uintptr(unsafe.Pointer(&is[:1][0]))
 }
